@@ -153,7 +153,22 @@ class Lifter:
         if all(self.canon(le) == self.canon(cases[0][1]) for _, le in cases):
             return cases[0][1]
         a = len(self.atoms)
-        self.atoms.append({'kind': 'C', 'cases': cases})
+        # boolean support of the case atom (None if some branch depends on a field atom): lets tabulation see through it
+        bs = set()
+        for c, le in cases:
+            x = c
+            while isinstance(x, tuple) and x[0] == 'not':
+                x = x[1]
+            if x is not True and not isinstance(x, tuple):
+                bs.add(x)
+                if self.atoms[x]['kind'] == 'FN':      # make the indicator dependent on its own support (mutually exclusive indicators)
+                    bs |= set(self.atoms[x]['sup'])
+            sub = self.boolsup(le)
+            if sub is None:
+                bs = None
+                break
+            bs |= set(sub)
+        self.atoms.append({'kind': 'C', 'cases': cases, 'bsup': bs})
         self.stats['case'] += 1
         return {a: 1}
 
@@ -198,29 +213,25 @@ class Lifter:
     # ------------------------------------------------------------------ boolean tabulation
     def boolsup(self, le):
         """sorted list of boolean atoms if every atom of le is boolean (or ONE), else None."""
-        out = []
+        out = set()
         for a in le:
             if a == ONE:
                 continue
-            if not self.isbool(a):
+            if self.isbool(a):
+                out.add(a)
+                continue
+            bs = self.atoms[a].get('bsup') if self.atoms[a]['kind'] == 'C' else None
+            if bs is None:
                 return None
-            out.append(a)
+            out |= bs
         return sorted(out)
 
     def close(self, sp):
         """split a support into free atoms and atoms that are functions of other atoms in the support."""
-        sp = set(sp)
-        dep = []
-        ch = True
-        while ch:
-            ch = False
-            for a in sorted(sp):
-                at = self.atoms[a]
-                if at['kind'] == 'FN' and set(at['sup']) <= (sp - {a}):
-                    sp.discard(a)
-                    dep.append(a)
-                    ch = True
-        return sorted(sp), dep
+        allsp = set(sp)
+        dep = [a for a in sorted(allsp) if self.atoms[a]['kind'] == 'FN' and set(self.atoms[a]['sup']) <= allsp]
+        # (an FN atom's support consists of older atoms, so dependencies are acyclic)
+        return sorted(allsp - set(dep)), dep
 
     def assignments(self, sp):
         free, dep = self.close(sp)
@@ -246,9 +257,32 @@ class Lifter:
         return sorted(out)
 
     def ev(self, le, asg):
-        return (le.get(ONE, 0) + sum(c * asg[a] for a, c in le.items() if a != ONE)) % self.P
+        t = le.get(ONE, 0)
+        for a, c in le.items():
+            if a == ONE:
+                continue
+            v = asg.get(a)
+            if v is None:
+                v = self.evcase(a, asg)
+            t += c * v
+        return t % self.P
 
-    def tabulate(self, les, f):
+    def evcond(self, cnd, asg):
+        if cnd is True:
+            return 1
+        if isinstance(cnd, tuple):
+            if cnd[0] == 'const':
+                return 1 if cnd[1] else 0
+            return 1 - self.evcond(cnd[1], asg)
+        return asg[cnd]
+
+    def evcase(self, a, asg):
+        for cnd, sub in self.atoms[a]['cases']:
+            if self.evcond(cnd, asg):
+                return self.ev(sub, asg)
+        raise Inconclusive('case atom %d: no case applies' % a)
+
+    def tabulate(self, les, f, want_const=False):
         """evaluate f(values of les) over all assignments of the joint boolean support.
         returns (free, vals) or None if support too large."""
         sp = set()
@@ -265,7 +299,8 @@ class Lifter:
                 vals = [f(*[self.ev(le, asg) for le in les]) for asg in self.assignments(sp)]
                 if best is None or len(free) < len(best[0]):
                     best = (free, vals)
-                if len(set(vals)) <= 2:
+                if len(set(vals)) <= (1 if want_const else 2):
+                    best = (free, vals)
                     break
             nsp = self.expand1(sp)
             if nsp == sp or len(nsp) > self.K + 6:
@@ -461,10 +496,10 @@ class Lifter:
                     w = [w for w, k in self.boolwires.items() if k == ci]
                     self.assertions.append({'ci': ci, 'kind': 'booltype', 'wire': w[0]})
                     continue
-                lL, lR, lO = self.lin(c['L']), self.lin(c['R']), self.lin(c['O'])
+                lL, lR, lO = self.cut(self.lin(c['L'])), self.cut(self.lin(c['R'])), self.lin(c['O'])
                 pr = self.product(lL, lR)
                 if pr[0] == 'tab':
-                    t = self.tabulate([lL, lR, lO], lambda x, y, o: 1 if (x * y - o) % P == 0 else 0)
+                    t = self.tabulate([lL, lR, lO], lambda x, y, o: 1 if (x * y - o) % P == 0 else 0, want_const=True)
                     if t is not None:
                         f = self.new_fn(t[0], t[1])
                         if f == ('const', 1):
@@ -486,7 +521,7 @@ class Lifter:
                     raise Inconclusive('constraint %d defines wire %d non-linearly (division)' % (ci, w))
                 cw = sum(int(cc) for cc, ww in c['O'] if int(ww) == w) % P
                 inv = pow(cw, -1, P)
-                lL, lR = self.lin(c['L']), self.lin(c['R'])
+                lL, lR = self.cut(self.lin(c['L'])), self.cut(self.lin(c['R']))
                 rest = self.lin([x for x in c['O'] if int(x[1]) != w])
                 pr = self.product(lL, lR)
                 if pr[0] == 'tab':
